@@ -8,7 +8,7 @@ import (
 	"strings"
 )
 
-func project(m string, out []byte) string {
+func project(v, m string, out []byte) string {
 	dec := json.NewDecoder(bytes.NewReader(out))
 	dec.UseNumber()
 	var resp map[string]any
@@ -35,41 +35,40 @@ func project(m string, out []byte) string {
 		return "num:" + num(res)
 	case "blockHashAndNumber":
 		return "hn:" + hx0(obj(res)["block_hash"]) + ":" + num(obj(res)["block_number"])
-	case "blockWithTxHashes", "blockWithTxs":
+	case "blockWithTxHashes":
 		o := obj(res)
 		var hs []string
 		for _, t := range arr(o["transactions"]) {
-			if m == "blockWithTxHashes" {
-				hs = append(hs, hx0(t))
-			} else {
-				hs = append(hs, hx0(obj(t)["transaction_hash"]))
-			}
+			hs = append(hs, hx0(t))
 		}
-		return blockHead(o) + ":" + joinOr(hs)
+		return "blk:" + blockHead(v, o) + ":" + joinOr(hs)
+	case "blockWithTxs":
+		o := obj(res)
+		var hs []string
+		for _, t := range arr(o["transactions"]) {
+			hs = append(hs, hx0(obj(t)["transaction_hash"])+"/"+pay.find("tx", v, stripped(obj(t), "transaction_hash")))
+		}
+		return "blkt:" + blockHead(v, o) + ":" + joinOr(hs)
 	case "blockWithReceipts":
 		o := obj(res)
 		var hs []string
 		for _, t := range arr(o["transactions"]) {
 			rc := obj(obj(t)["receipt"])
-			if _, has := obj(obj(t)["transaction"])["transaction_hash"]; has {
+			tx := obj(obj(t)["transaction"])
+			if _, has := tx["transaction_hash"]; has {
 				hs = append(hs, "?tx-carries-hash")
 			}
-			hs = append(hs, fmt.Sprintf("%s/%s/%s/%d", hx0(rc["transaction_hash"]), fin(rc["finality_status"]),
-				exe(rc["execution_status"]), len(arr(rc["events"]))))
+			hs = append(hs, fmt.Sprintf("%s/%s/%s/%d/%s/%s", hx0(rc["transaction_hash"]), fin(rc["finality_status"]),
+				exe(rc["execution_status"]), len(arr(rc["events"])), pay.find("tx", v, tx), receiptPayload(v, rc)))
 		}
-		return "blkr" + strings.TrimPrefix(blockHead(o), "blk") + ":" + joinOr(hs)
+		return "blkr:" + blockHead(v, o) + ":" + joinOr(hs)
 	case "txByHash", "txByIdx":
 		o := obj(res)
-		cd := arr(o["calldata"])
-		ix := "?"
-		if len(cd) == 1 {
-			ix = hx0(cd[0])
-		}
-		return "tx:" + hx0(o["transaction_hash"]) + ":" + ix
+		return "tx:" + hx0(o["transaction_hash"]) + ":" + pay.find("tx", v, stripped(o, "transaction_hash"))
 	case "receipt":
 		o := obj(res)
-		return fmt.Sprintf("rc:%s:%s:%s:%s:%s:%d", hx0(o["transaction_hash"]), num(o["block_number"]), hx0(o["block_hash"]),
-			fin(o["finality_status"]), exe(o["execution_status"]), len(arr(o["events"])))
+		return fmt.Sprintf("rc:%s:%s:%s:%s:%s:%d:%s", hx0(o["transaction_hash"]), num(o["block_number"]), hx0(o["block_hash"]),
+			fin(o["finality_status"]), exe(o["execution_status"]), len(arr(o["events"])), receiptPayload(v, o))
 	case "txStatus":
 		o := obj(res)
 		return "st:" + fin(o["finality_status"]) + ":" + exe(o["execution_status"])
@@ -77,22 +76,26 @@ func project(m string, out []byte) string {
 		return projectStateUpdate(obj(res))
 	case "storageAt", "nonce", "classHashAt":
 		return "felt:" + hx0(res)
+	case "storageAtLU":
+		o := obj(res)
+		if len(o) != 2 {
+			return "feltat:?" + string(out)
+		}
+		return "feltat:" + hx0(o["value"]) + ":" + num(o["last_update_block"])
 	case "classAt", "class":
-		p, _ := obj(res)["program"].(string)
-		if !strings.HasPrefix(p, "p") {
-			return "class:?" + p
-		}
-		var id uint64
-		if _, err := fmt.Sscanf(p, "p%d", &id); err != nil {
-			return "class:?" + p
-		}
-		return fmt.Sprintf("class:%x", id)
+		return "class:" + pay.find("class", v, res)
 	}
 	return "unprojected:" + string(out)
 }
 
-func blockHead(o map[string]any) string {
-	return fmt.Sprintf("blk:%s:%s:%s:%s", num(o["block_number"]), hx0(o["block_hash"]), hx0(o["parent_hash"]), fin(o["status"]))
+// number : hash : parent : status : payload of the whole header
+func blockHead(v string, o map[string]any) string {
+	return fmt.Sprintf("%s:%s:%s:%s:%s", num(o["block_number"]), hx0(o["block_hash"]), hx0(o["parent_hash"]), fin(o["status"]),
+		pay.find("hdr", v, stripped(o, "status", "transactions")))
+}
+
+func receiptPayload(v string, rc map[string]any) string {
+	return pay.find("rc", v, stripped(rc, "finality_status", "block_hash", "block_number"))
 }
 
 func projectStateUpdate(o map[string]any) string {
@@ -118,15 +121,16 @@ func projectStateUpdate(o map[string]any) string {
 	for _, x := range arr(d["deprecated_declared_classes"]) {
 		decl = append(decl, hx0(x))
 	}
-	extra := ""
-	if n := len(arr(d["declared_classes"])); n > 0 {
-		extra += fmt.Sprintf(";?declared_classes=%d", n)
+	var decl1 []string
+	for _, x := range arr(d["declared_classes"]) {
+		decl1 = append(decl1, hx0(obj(x)["class_hash"])+">"+hx0(obj(x)["compiled_class_hash"]))
 	}
+	sortNumHex(decl1)
 	sortNumHex(dep)
 	sortNumHex(rep)
 	sortNumHex(non)
 	sortNumHex(sto)
 	sortNumHex(decl)
-	return fmt.Sprintf("su:%s:dep=%s;rep=%s;non=%s;sto=%s;decl=%s%s", hx0(o["block_hash"]),
-		joinOr(dep), joinOr(rep), joinOr(non), joinOr(sto), joinOr(decl), extra)
+	return fmt.Sprintf("su:%s:dep=%s;rep=%s;non=%s;sto=%s;decl=%s;decl1=%s", hx0(o["block_hash"]),
+		joinOr(dep), joinOr(rep), joinOr(non), joinOr(sto), joinOr(decl), joinOr(decl1))
 }
